@@ -213,7 +213,14 @@ class SymBuf(bytes):
             return self.cut(k)[1]
         if sl.start is None and sl.stop is None:
             return self
-        raise HarnessError("two-sided slice")
+        a, b = sl.start, sl.stop
+        if a < 0 or b < 0:
+            raise HarnessError("negative slice")
+        if b > n:
+            b = n
+        if a >= b:
+            return SymBuf([])
+        return self.cut(b)[0].cut(a)[1]
 
     # ---- conversion -------------------------------------------------------------------
     def decode(self, enc="utf-8", errors="strict"):
@@ -294,6 +301,27 @@ class FillStr(str):
         o = str.__new__(cls, rep)
         o.buf = buf
         return o
+
+    def encode(self, enc="utf-8", errors="strict"):
+        return self.buf
+
+
+class TextBody(str):
+    """A text body whose character count and UTF-8 byte count are *separate* solver integers
+    (nchars <= nbytes): ``len()`` answers the character count, ``encode()`` the byte buffer.
+    Only for values that nauyaca treats as an opaque body (never for URLs)."""
+
+    def __new__(cls, nchars, buf):
+        o = str.__new__(cls, "")
+        o.nchars = nchars
+        o.buf = buf
+        return o
+
+    def __len__(self):
+        return self.nchars
+
+    def __bool__(self):
+        return True if self.nchars > 0 else False
 
     def encode(self, enc="utf-8", errors="strict"):
         return self.buf
